@@ -96,6 +96,9 @@ func gen(r *hlib.Rand, n int, tier, profile string, emit func(string, ...any)) {
 			}
 		}
 	}
+	for _, b := range pktlib.FragBits() {
+		emit("parse 1 %s %s", hlib.Hex(b), gpSummary(b))
+	}
 	for i := 0; i < n; i++ {
 		b, _ := pktlib.Any(r)
 		if r.Chance(1, 8) {
